@@ -563,12 +563,156 @@ def reset_in_same_round(ctx, rng, which):
         sc.close()
 
 
+def client_delivery_faults(ctx, only=None):
+    """The reply of a DNS query or of a UDP association cannot be handed to the local requester: the send on the
+    CLIENT's side fails with a network error (the requester's address has become unreachable, a local filter refuses
+    the packet, no buffer space).  That is a failure confined to one flow: the client process keeps running, and a
+    neighbouring flow's reply, arriving in the same read right behind it, is delivered.  Real ondns / onaccept_udp /
+    dns_done / udp_done, real Mux.handle through the real ssnet.runonce; DNS goes through the real BaseMethod
+    (recvfrom / sendto on the listener socket, which is scripted), UDP through a scripted method."""
+    import struct
+    import sshuttle.ssnet as ssnet
+    import sshuttle.client as client
+    import sshuttle.helpers as helpers
+    from sshuttle.methods import BaseMethod
+
+    class Feed:
+        def __init__(self):
+            self.data = b''
+
+        def fileno(self):
+            return 997
+
+        def read(self, n):
+            out, self.data = self.data[:n], self.data[n:]
+            return out if out else None
+
+        def write(self, b):
+            return len(b)
+
+    class Listener:
+        """the client's DNS / UDP listener socket"""
+        family = 2
+
+        def __init__(self):
+            self.next = None
+            self.sent = []
+            self.fail = None
+
+        def recvfrom(self, n):
+            return self.next
+
+        def sendto(self, data, dst):
+            if self.fail is not None:
+                e, self.fail = self.fail, None
+                raise OSError(e, 'scripted: ' + __import__('os').strerror(e))
+            self.sent.append((dst, data))
+            return len(data)
+
+    class UdpMethod:
+        def __init__(self, listener):
+            self.listener = listener
+            self.next = None
+
+        def recv_udp(self, listener, bufsize):
+            return self.next
+
+        def send_udp(self, sock, srcip, dstip, data):
+            return self.listener.sendto(data, dstip)
+
+    def frame(chan, cmd, data):
+        return struct.pack('!ccHHH', b'S', b'S', chan, cmd, len(data)) + data
+
+    errs = sorted(set(int(x) for x in ssnet.NET_ERRS) | {errno.EPERM, errno.EACCES, errno.ENOBUFS, errno.EMSGSIZE})
+    levels = [0, 3, 1, 2]
+    n_case = 0
+    for kind in ('dns', 'udp'):
+        for eno in errs:
+            n_case += 1
+            if only is not None and only != [kind, eno]:
+                continue
+            ctx.count()
+            ctx.hist('directed:client-delivery-fault')
+            ctx.mark(('client-delivery-fault', kind, eno), True)
+            saved = dict(select=ssnet.select, nbio=ssnet.set_non_blocking_io, verbose=helpers.verbose, stderr=sys.stderr,
+                         time=client.time.time)
+            what = None
+            try:
+                helpers.verbose = levels[(n_case + int(ctx.seed)) % len(levels)]
+                sys.stderr = io.StringIO()
+                ssnet.set_non_blocking_io = lambda fd: None
+                client.time.time = lambda: 1000.0
+                client.dnsreqs.clear()
+                client.udp_by_src.clear()
+                feed = Feed()
+                mux = ssnet.Mux(feed, Feed())
+                handlers = [mux]
+                lst = Listener()
+                real_select = saved['select']
+
+                class Sel:
+                    def select(s, r, w, x, *a):
+                        return ([i for i in r if i is feed and feed.data], [], [])
+
+                    def __getattr__(s, n):
+                        return getattr(real_select, n)
+                ssnet.select = Sel()
+                if kind == 'dns':
+                    method = BaseMethod('nat')
+                    lst.next = (b'query-A', ('10.0.0.5', 4000))
+                    client.ondns(lst, method, mux, handlers)
+                    lst.next = (b'query-B', ('10.0.0.6', 4001))
+                    client.ondns(lst, method, mux, handlers)
+                    ids = sorted(client.dnsreqs)
+                    burst = [frame(ids[0], ssnet.CMD_DNS_RESPONSE, b'answer-A'), frame(ids[1], ssnet.CMD_DNS_RESPONSE, b'answer-B')]
+                    want = (('10.0.0.6', 4001), b'answer-B')
+                else:
+                    method = UdpMethod(lst)
+                    method.next = (('10.0.0.5', 4000), ('5.6.7.8', 99), b'dgram-A')
+                    client.onaccept_udp(lst, method, mux, handlers)
+                    method.next = (('10.0.0.6', 4001), ('5.6.7.8', 99), b'dgram-B')
+                    client.onaccept_udp(lst, method, mux, handlers)
+                    ids = sorted(ch for (ch, _t) in client.udp_by_src.values())
+                    burst = [frame(ids[0], ssnet.CMD_UDP_DATA, b'5.6.7.8,99,reply-A'), frame(ids[1], ssnet.CMD_UDP_DATA, b'5.6.7.8,99,reply-B')]
+                    want = (('10.0.0.6', 4001), b'reply-B')
+                if len(ids) != 2:
+                    what = 'harness: the two flows were not opened (%r)' % (ids,)
+                else:
+                    lst.fail = eno                      # the send of the first reply fails
+                    feed.data = b''.join(burst)
+                    try:
+                        ssnet.runonce(handlers, mux)
+                        ssnet.runonce(handlers, mux)
+                    except Exception as e:  # noqa
+                        what = ('the client\'s loop ended with %s: %s (the send of one %s reply to its requester failed with %s)'
+                                % (type(e).__name__, e, kind, errno.errorcode.get(eno, eno)))
+                    if what is None and want not in lst.sent:
+                        what = 'the neighbouring flow\'s reply, in the same read behind the failing one, was not delivered: sent %r' % (lst.sent,)
+                    if what is None and not mux.ok:
+                        what = 'the tunnel handler was marked finished'
+            finally:
+                ssnet.select = saved['select']
+                ssnet.set_non_blocking_io = saved['nbio']
+                helpers.verbose = saved['verbose']
+                sys.stderr = saved['stderr']
+                client.time.time = saved['time']
+                client.dnsreqs.clear()
+                client.udp_by_src.clear()
+            if what:
+                ctx.violation('C08:client-delivery:%s-reply-send-error-ends-the-client' % kind,
+                              case=dict(kind='client-delivery-fault', flow=kind, errno=eno),
+                              expected='the reply that cannot be delivered is dropped (at most that flow ends); the client '
+                                       'keeps running and the neighbouring flow gets its reply', observed=what)
+                break
+
+
 def run(ctx):
     rng = ctx.rng
     tg.set_verbosity_seed(ctx.seed)
     directed(ctx)
     dgram_faults(ctx)
     accept_faults(ctx)
+    client_delivery_faults(ctx)
     all_in, all_out = [], []
     for which in ('s', 'c'):
         ins, outs = reset_in_same_round(ctx, rng, which)
@@ -624,6 +768,11 @@ def replay(ctx, rep):
         directed(c2)
         hit = [v for v in c2.violations if v['key'] == rep['key']]
         return bool(hit), (hit[0]['observed'] if hit else 'directed case passes')
+    if case.get('kind') == 'client-delivery-fault':
+        c2 = type(ctx)(ctx.prop_id, 'quick', 0)
+        client_delivery_faults(c2, only=[case['flow'], case['errno']])
+        hit = [v for v in c2.violations if v['key'] == rep['key']]
+        return bool(hit), (hit[0]['observed'] if hit else 'the undeliverable reply is dropped, the client runs on, the neighbour gets its reply')
     if ':work:' in rep.get('key', ''):
         return tg.replay_work(case)
     s, wrote = tg.replay_script(case)
